@@ -17,7 +17,8 @@ RULE = ("Source texts from five generators (W5 hostile Unicode fragment strings,
         "mutations) are run through Parser.parse in collecting and stop-at-first-error mode, Compiler.compile "
         "on every returned document and GherkinEvents.enum with rotating print options; W6 scaling families are "
         "run at n, 2n, 4n under a sys.monitoring LINE-event step counter.  A case is distinct by the hash of its "
-        "source text and non-trivial when it is non-empty.")
+        "source text and non-trivial when it is non-empty."
+        " Also: every text additionally on a reused Parser/TokenMatcher (perturbing predecessors), GherkinEvents.enum also with a stop-at-first-error parser (every third call), corpus splicing with character-level mutation, the repository's own tests under the monitors (W0).")
 ASSUMPTIONS = [
     "inputs are bounded (<= 4000 lines / ~1 MB); MemoryError and RecursionError of the interpreter are out of scope",
     "Compiler.compile is called with the document's uri attached, as its typed signature, the unit tests and the stream layer do",
